@@ -43,4 +43,11 @@ def soup(ctx, nrand, rlen):
             return None, tr, out
         raise common.Inconclusive("soup driver failed (rc=%s): %s" % (rc, out[-1500:]))
     ok, msg, r = ctx.validate_trace("RobustTrace.tla", "RobustTrace.cfg", tr, what="tracker projection after arbitrary lines + default nick generator sweep")
+    import re
+    m = re.search(r'"VERDICT",\s*"C13",\s*(\d+),\s*"C17",\s*(\d+)', r.out)
+    if not m:
+        raise common.Inconclusive("no verdict from RobustTrace: " + msg[:300] + "\n" + "\n".join(r.out.splitlines()[-15:]))
+    s = dict(s, bad_soup=int(m.group(1)), bad_newnick=int(m.group(2)))
+    ex = re.findall(r'"NONCONFORMING"[^\n]*', r.out)
+    s["examples"] = [e[:300] for e in ex[:4]]
     return (ok, msg, s), tr, out
